@@ -323,6 +323,7 @@ impl Report {
                     "property": ctx.property,
                     "key": key,
                     "tier": ctx.tier.as_str(),
+                    "part": std::env::var("VERIF_PART").ok(),
                     "occurrences": count_of(key, vs.len()),
                     "what": vs[0].what,
                     "replay": vs[0].replay,
@@ -367,6 +368,11 @@ impl Report {
             "wall_s": (ctx.elapsed_s() * 1000.0).round() / 1000.0,
             "violations": unknown,
         });
+        let ev = if std::env::var("VERIF_EVIDENCE_MERGE").as_deref() == Ok("1") && ctx.replay.is_none() {
+            merge_evidence(ctx, ev)
+        } else {
+            ev
+        };
         if ctx.replay.is_none() {
             let evdir = ctx.verif_dir.join("evidence");
             let _ = std::fs::create_dir_all(&evdir);
@@ -408,6 +414,58 @@ impl Report {
         }
         std::process::exit(0);
     }
+}
+
+/// A property served by several binaries (parts): the later parts add what they covered to the
+/// evidence file the first part wrote.
+fn merge_evidence(ctx: &Ctx, new: Value) -> Value {
+    let path = ctx.verif_dir.join("evidence").join(format!("{}.json", ctx.property));
+    let Ok(txt) = std::fs::read_to_string(&path) else {
+        return new;
+    };
+    let Ok(mut old) = serde_json::from_str::<Value>(&txt) else {
+        return new;
+    };
+    let part = std::env::var("VERIF_PART").unwrap_or_else(|_| "part".into());
+    let add = |a: &Value, b: &Value| json!(a.as_u64().unwrap_or(0) + b.as_u64().unwrap_or(0));
+    let nc = new["coverage"].clone();
+    {
+        let oc = old["coverage"].as_object_mut().expect("coverage object");
+        for k in ["evaluations", "distinct_nontrivial", "known_finding_occurrences"] {
+            let v = add(oc.get(k).unwrap_or(&Value::Null), &nc[k]);
+            oc.insert(k.to_string(), v);
+        }
+        for k in ["states", "transitions", "traces_validated_against_impl"] {
+            if oc.contains_key(k) || !nc[k].is_null() {
+                let v = add(oc.get(k).unwrap_or(&Value::Null), &nc[k]);
+                oc.insert(k.to_string(), v);
+            }
+        }
+        let ex = oc.get("exhaustive").and_then(|v| v.as_bool()).unwrap_or(true) && nc["exhaustive"].as_bool().unwrap_or(true);
+        oc.insert("exhaustive".into(), json!(ex));
+        let rule = format!("{} || [{part}] {}", oc.get("rule").and_then(|v| v.as_str()).unwrap_or(""), nc["rule"].as_str().unwrap_or(""));
+        oc.insert("rule".into(), json!(rule));
+        let mut samples = oc.get("samples").and_then(|v| v.as_array()).cloned().unwrap_or_default();
+        samples.extend(nc["samples"].as_array().cloned().unwrap_or_default());
+        oc.insert("samples".into(), Value::Array(samples));
+        let mut outcomes = oc.get("outcomes").and_then(|v| v.as_object()).cloned().unwrap_or_default();
+        for (k, v) in nc["outcomes"].as_object().cloned().unwrap_or_default() {
+            outcomes.insert(format!("{part}:{k}"), v);
+        }
+        oc.insert("distinct_outcomes".into(), json!(outcomes.len()));
+        oc.insert("outcomes".into(), Value::Object(outcomes));
+        oc.insert(format!("part:{part}"), nc.clone());
+    }
+    let mut assumptions = old["assumptions"].as_array().cloned().unwrap_or_default();
+    for a in new["assumptions"].as_array().cloned().unwrap_or_default() {
+        if !assumptions.contains(&a) {
+            assumptions.push(a);
+        }
+    }
+    old["assumptions"] = Value::Array(assumptions);
+    old["wall_s"] = json!(old["wall_s"].as_f64().unwrap_or(0.0) + new["wall_s"].as_f64().unwrap_or(0.0));
+    old["violations"] = add(&old["violations"], &new["violations"]);
+    old
 }
 
 fn one_line(s: &str) -> String {
